@@ -111,4 +111,290 @@ theorem mu_step (c : Cfg) (s : State) (a : Act) (s' : State) (hi : Inv c s) (hs 
     · simp only [setFork_same, fmeasure, rank, isSpin, hp, condMet]
       first | (simp; done) | (simp; omega) | (simp; grind) | grind
 
+/-- a fork about to pull holds the lock and the source has not failed before -/
+theorem pull_ok (c : Cfg) (s : State) (hi : Inv c s) (f : Nat) (hf : f < c.n)
+    (hp : (s.forks f).pc = .hPull ∨ (s.forks f).pc = .wPull) : s.lock = some f ∧ s.raised = false := by
+  have fi := hi.forks f hf
+  have hb := hi.boxes_eq
+  have hr := hi.raised_imp
+  rcases hp with hp | hp
+  · refine ⟨fi.locked_own (by simp [hp, Pc.locked]), ?_⟩
+    have := fi.quiet (by simp [hp, Pc.quiet]); have := fi.hPull hp
+    cases hra : s.raised
+    · rfl
+    · simp [hra] at hb; omega
+  · refine ⟨fi.locked_own (by simp [hp, Pc.locked]), ?_⟩
+    have := fi.quiet (by simp [hp, Pc.quiet]); have := fi.wPull hp
+    have := fi.notExc (by simp [hp, Pc.notExc])
+    cases hra : s.raised
+    · rfl
+    · simp [hra] at hb; have := (hr hra).2; omega
+
+/-- what a progress step is: within at most two steps the measure strictly decreases -/
+def Advances (c : Cfg) (s : State) : Prop :=
+  ∃ as s', as ≠ [] ∧ as.length ≤ 2 ∧ Core.run (step c) s as = some s' ∧ mu c s' < mu c s
+
+theorem one_step (c : Cfg) (s : State) (a : Act) (s' : State) (hi : Inv c s) (h : step c s a = some s')
+    (hns : isSpin c s a = false) : Advances c s := by
+  refine ⟨[a], s', by simp, by simp, by simp [Core.run, h], ?_⟩
+  have := mu_step c s a s' hi (step_sound c s s' a h)
+  simp [hns] at this; omega
+
+theorem two_step (c : Cfg) (s : State) (a b : Act) (s' s'' : State) (hi : Inv c s) (h : step c s a = some s')
+    (h' : step c s' b = some s'') (hns : isSpin c s' b = false) : Advances c s := by
+  refine ⟨[a, b], s'', by simp, by simp, by simp [Core.run, h, h'], ?_⟩
+  have hst := step_sound c s s' a h
+  have h1 := mu_step c s a s' hi hst
+  have h2 := mu_step c s' b s'' (inv_step c s a s' hi hst) (step_sound c s' s'' b h')
+  simp [hns] at h2
+  have : mu c s' ≤ mu c s := by split at h1 <;> omega
+  omega
+
+/-- the fork's wait-loop condition (if it is in one) is already met -/
+def MetOf (c : Cfg) (s : State) (fk : Fork) : Prop :=
+  ((fk.pc = .hLoop ∨ fk.pc = .hAcq) → s.linked ≠ 0) ∧
+  ((fk.pc = .wLoop ∨ fk.pc = .wAcq) → condMet c s.linked fk = true)
+
+set_option hygiene false in
+macro "tee_en" k:term : tactic => `(tactic| (
+   have hex : ∃ s', step c s ⟨f, $k⟩ = some s' := by simp [step, stepF, hf, hpc, *]
+   obtain ⟨s', hs'⟩ := hex
+   exact one_step c s _ s' hi hs' (by simp [isSpin, hpc, *])))
+
+/-- a fork that is not at a blocking point can advance -/
+theorem fork_advances (c : Cfg) (s : State) (hi : Inv c s) (h2 : Inv2 c s) (hbs : 1 ≤ c.bs) (f : Nat) (hf : f < c.n)
+    (hnd : (s.forks f).pc ≠ .done)
+    (hsp : s.lock = none ∨ MetOf c s (s.forks f))
+    (hput : (s.forks f).pc = .wPut → s.put < s.popped + c.bs)
+    (hbox : (s.forks f).pc = .bAcq → ∀ j, (s.forks f).cur = some j → boxFree c s f j = true) :
+    Advances c s := by
+  have fi := hi.forks f hf
+  cases hpc : (s.forks f).pc
+  case done => exact absurd hpc hnd
+  case idle => tee_en .call
+  case chkHead => tee_en .hget
+  case hLoop =>
+    by_cases hl0 : s.linked = 0
+    · rcases hsp with hlk | hm
+      · -- re-check (spin), then the acquire succeeds because the lock is free
+        have hex : ∃ s', step c s ⟨f, .hget⟩ = some s' := by simp [step, stepF, hf, hpc]
+        obtain ⟨s', hs'⟩ := hex
+        have hex2 : ∃ s'', step c s' ⟨f, .acqOk⟩ = some s'' := by
+          simp [step, stepF, hf, hpc, hl0] at hs'; subst hs'; simp [step, stepF, hf, hlk]
+        obtain ⟨s'', hs''⟩ := hex2
+        exact two_step c s _ _ s' s'' hi hs' hs'' (by simp [isSpin])
+      · exact absurd hl0 (hm.1 (Or.inl hpc))
+    · tee_en .hget
+  case hAcq =>
+    cases hlk : s.lock with
+    | none => tee_en .acqOk
+    | some h =>
+      have hl0 : s.linked ≠ 0 := by
+        rcases hsp with h' | hm
+        · simp [hlk] at h'
+        · exact hm.1 (Or.inr hpc)
+      tee_en .acqFail
+  case hChk => tee_en .hget
+  case hPull =>
+    have ⟨_, hnr⟩ := pull_ok c s hi f hf (Or.inl hpc)
+    have := hi.pulled_le
+    by_cases hlt : s.pulled < c.len
+    · tee_en .pull
+    · have he : s.pulled = c.len := by omega
+      cases hfl : c.fail
+      · tee_en .srcEnd
+      · tee_en .srcExc
+  case hPut =>
+    have hw : s.put < s.popped + c.bs := by have := fi.hPut hpc; omega
+    tee_en .put
+  case hSet => tee_en .hset
+  case hRel =>
+    have hlk := fi.locked_own (by simp [hpc, Pc.locked])
+    tee_en .rel
+  case hRelStop =>
+    have hlk := fi.locked_own (by simp [hpc, Pc.locked])
+    tee_en .rel
+  case hNext =>
+    have hl := fi.hNext hpc
+    tee_en .hget
+  case wLoop =>
+    have hc := (fi.atBox (by simp [hpc, Pc.atBox])).1
+    by_cases hm : condMet c s.linked (s.forks f) = true
+    · have hm' := hm
+      simp [condMet, hc] at hm'
+      have hex : ∃ s', step c s ⟨f, .nget⟩ = some s' := by simp [step, stepF, hf, hpc, hc]
+      obtain ⟨s', hs'⟩ := hex
+      refine one_step c s _ s' hi hs' ?_
+      simp only [isSpin, hpc, hc]
+      rcases hm' with h | h <;> simp [h]
+    · rcases hsp with hlk | hmm
+      · have hm' := hm
+        simp [condMet, hc] at hm'
+        have hex : ∃ s', step c s ⟨f, .nget⟩ = some s' := by simp [step, stepF, hf, hpc, hc]
+        obtain ⟨s', hs'⟩ := hex
+        have hex2 : ∃ s'', step c s' ⟨f, .acqOk⟩ = some s'' := by
+          have h1 : ¬ ((s.forks f).inc + 1 < s.linked) := by omega
+          simp [step, stepF, hf, hpc, hc, h1, hm'.2] at hs'; subst hs'; simp [step, stepF, hf, hlk]
+        obtain ⟨s'', hs''⟩ := hex2
+        exact two_step c s _ _ s' s'' hi hs' hs'' (by simp [isSpin])
+      · exact absurd (hmm.2 (Or.inl hpc)) hm
+  case wAcq =>
+    have hc := (fi.atBox (by simp [hpc, Pc.atBox])).1
+    cases hlk : s.lock with
+    | none => tee_en .acqOk
+    | some h =>
+      have hm : condMet c s.linked (s.forks f) = true := by
+        rcases hsp with h' | hm
+        · simp [hlk] at h'
+        · exact hm.2 (Or.inr hpc)
+      simp [condMet, hc] at hm
+      have hex : ∃ s', step c s ⟨f, .acqFail⟩ = some s' := by simp [step, stepF, hf, hpc, hlk]
+      obtain ⟨s', hs'⟩ := hex
+      refine one_step c s _ s' hi hs' ?_
+      simp only [isSpin, hpc, hc]
+      rcases hm with h | h <;> simp [h]
+  case wChk =>
+    have hc := (fi.atBox (by simp [hpc, Pc.atBox])).1
+    tee_en .nget
+  case wPull =>
+    have ⟨_, hnr⟩ := pull_ok c s hi f hf (Or.inr hpc)
+    have := hi.pulled_le
+    by_cases hlt : s.pulled < c.len
+    · tee_en .pull
+    · have he : s.pulled = c.len := by omega
+      cases hfl : c.fail
+      · tee_en .srcEnd
+      · tee_en .srcExc
+  case wLink =>
+    have hc := (fi.atBox (by simp [hpc, Pc.atBox])).1
+    tee_en .nset
+  case wPut =>
+    have hw := hput hpc
+    tee_en .put
+  case wRel =>
+    have hlk := fi.locked_own (by simp [hpc, Pc.locked])
+    tee_en .rel
+  case bAcq =>
+    have hc := (fi.atBox (by simp [hpc, Pc.atBox])).1
+    have hb := hbox hpc _ hc
+    tee_en .bacq
+  case bInc =>
+    have hc := (fi.atBox (by simp [hpc, Pc.atBox])).1
+    tee_en .inc
+  case bGet =>
+    have hw := (get_own c s hi h2 f hf hpc).2.2
+    tee_en .get
+  case bRel => tee_en .brel
+  case adv =>
+    have hc := (fi.postInc (by simp [hpc, Pc.postInc])).1
+    tee_en .nget
+  case ret j => tee_en .recv
+  case retExc => tee_en .exc
+  case retStop => tee_en .stop
+
+theorem holder_of_not_free (c : Cfg) (s : State) (f j : Nat) (h : ¬ boxFree c s f j = true) :
+    ∃ g, g < c.n ∧ g ≠ f ∧ holdsBox (s.forks g) j = true := by
+  simp only [boxFree, List.all_eq_true, List.mem_range] at h
+  apply Classical.byContradiction
+  intro hne
+  apply h
+  intro g hg
+  by_cases hgf : g = f
+  · simp [hgf]
+  · cases hh : holdsBox (s.forks g) j
+    · simp
+    · exact absurd ⟨g, hg, hgf, hh⟩ hne
+
+/-- like `fork_advances`, but a fork waiting for a box lock is unblocked by the holder of that lock -/
+theorem unblocked_advances (c : Cfg) (s : State) (hi : Inv c s) (h2 : Inv2 c s) (hbs : 1 ≤ c.bs) (f : Nat)
+    (hf : f < c.n) (hnd : (s.forks f).pc ≠ .done) (hsp : s.lock = none ∨ MetOf c s (s.forks f))
+    (hput : (s.forks f).pc = .wPut → s.put < s.popped + c.bs) : Advances c s := by
+  by_cases hb : (s.forks f).pc = .bAcq ∧ ∃ j, (s.forks f).cur = some j ∧ ¬ boxFree c s f j = true
+  · obtain ⟨_, j, _, hnf⟩ := hb
+    obtain ⟨g, hg, _, hh⟩ := holder_of_not_free c s f j hnf
+    simp only [holdsBox, Bool.and_eq_true, Bool.or_eq_true, beq_iff_eq] at hh
+    have hpg := hh.2
+    refine fork_advances c s hi h2 hbs g hg ?_ (Or.inr ⟨?_, ?_⟩) ?_ ?_
+    · rcases hpg with (h | h) | h <;> simp [h]
+    · rcases hpg with (h | h) | h <;> simp [h]
+    · rcases hpg with (h | h) | h <;> simp [h]
+    · rcases hpg with (h | h) | h <;> simp [h]
+    · rcases hpg with (h | h) | h <;> simp [h]
+  · refine fork_advances c s hi h2 hbs f hf hnd hsp hput ?_
+    intro hp j hc
+    apply Classical.byContradiction
+    intro hnf
+    exact hb ⟨hp, j, hc, hnf⟩
+
+/-- Progress: in every non-final state satisfying the invariants, within at most two steps the
+    measure strictly decreases (one productive step, or a re-check of the loop condition followed
+    by a successful lock acquisition). -/
+theorem progress (c : Cfg) (s : State) (hi : Inv c s) (h2 : Inv2 c s) (hbs : 2 ≤ c.bs) (hnf : ¬ Final c s) :
+    Advances c s := by
+  have hbs1 : 1 ≤ c.bs := by omega
+  cases hlk : s.lock with
+  | none =>
+    have hex : ∃ f, f < c.n ∧ (s.forks f).pc ≠ .done := by
+      apply Classical.byContradiction
+      intro hne
+      apply hnf
+      intro f hf
+      apply Classical.byContradiction
+      intro hd
+      exact hne ⟨f, hf, hd⟩
+    obtain ⟨f, hf, hnd⟩ := hex
+    refine unblocked_advances c s hi h2 hbs1 f hf hnd (Or.inl hlk) ?_
+    intro hp
+    have := (hi.forks f hf).locked_own (by simp [hp, Pc.locked])
+    simp [hlk] at this
+  | some h =>
+    obtain ⟨hh, hlocked⟩ := hi.lock_lt h hlk
+    have fh := hi.forks h hh
+    by_cases hfull : (s.forks h).pc = .wPut ∧ ¬ (s.put < s.popped + c.bs)
+    · obtain ⟨hpw, hnw⟩ := hfull
+      have wp := fh.wPut hpw
+      have win := hi.win
+      have shape := hi.shape
+      by_cases hlag : ∃ g, g < c.n ∧ (s.forks g).inc ≤ s.popped
+      · obtain ⟨g, hg, hgl⟩ := hlag
+        have fg := hi.forks g hg
+        have hgh : g ≠ h := by intro e; subst e; omega
+        have hnl : (s.forks g).pc.locked = false := by
+          cases hl : (s.forks g).pc.locked
+          · rfl
+          · have := fg.locked_own hl; rw [hlk] at this; exact absurd (Option.some.inj this).symm hgh
+        refine unblocked_advances c s hi h2 hbs1 g hg ?_ (Or.inr ⟨?_, ?_⟩) ?_
+        · intro hd
+          have hb := hi.boxes_eq
+          have hpl := hi.pulled_le
+          rcases fg.done hd with ⟨_, hec, _⟩ | ⟨_, _, _, _, hinc⟩
+          · obtain ⟨e1, e2, e3, _⟩ := hec
+            cases hra : s.raised
+            · simp [hra] at hb; omega
+            · have := (hi.raised_imp hra).1; simp [e1] at this
+          · split at hb <;> omega
+        · intro _; omega
+        · intro hp
+          have hc := (fg.atBox (by rcases hp with h | h <;> simp [h, Pc.atBox])).1
+          simp only [condMet, hc, Bool.or_eq_true, decide_eq_true_eq]
+          left; omega
+        · intro hp; simp [hp, Pc.locked] at hnl
+      · have hall : ∀ g, g < c.n → s.popped < (s.forks g).inc := by
+          intro g hg
+          apply Classical.byContradiction
+          intro hn
+          exact hlag ⟨g, hg, by omega⟩
+        rcases h2.full_pop s.popped hall with hlt | ⟨g, hg, hpg, _⟩
+        · omega
+        · refine fork_advances c s hi h2 hbs1 g hg (by simp [hpg]) (Or.inr ⟨by simp [hpg], by simp [hpg]⟩)
+            (by simp [hpg]) (by simp [hpg])
+    · refine unblocked_advances c s hi h2 hbs1 h hh ?_ (Or.inr ⟨?_, ?_⟩) ?_
+      · intro hd; simp [hd, Pc.locked] at hlocked
+      · intro hp; rcases hp with hp | hp <;> simp [hp, Pc.locked] at hlocked
+      · intro hp; rcases hp with hp | hp <;> simp [hp, Pc.locked] at hlocked
+      · intro hp
+        apply Classical.byContradiction
+        intro hn
+        exact hfull ⟨hp, hn⟩
+
 end Tee
